@@ -297,6 +297,22 @@ def main(tier, seed):
                     fid = 'C09-F15'
                 ck.failing_input('g-ir-generate describes another API than the typelib', dict(gir=open(gir).read()),
                                  detail=dict(line=d[0], expected=d[1], generated=d[2]), fid=fid)
+            # the same with --all (sizes and offsets included): still well-formed, still the same API
+            q2 = subprocess.run([os.path.join(CBUILD, 'g-ir-generate'), '--all', os.path.join(tmp, 'T-1.0.typelib')],
+                                capture_output=True, text=True, timeout=120)
+            if q2.returncode != 0:
+                ck.failing_input('g-ir-generate --all failed', dict(gir=open(gir).read()), detail=q2.stderr[-500:])
+                continue
+            try:
+                root2 = ET.fromstring(q2.stdout)
+            except ET.ParseError as e:
+                ck.failing_input('g-ir-generate --all wrote ill-formed XML: %s' % e, dict(gir=open(gir).read()),
+                                 detail=[l for l in q2.stdout.split('\n') if 'offset=' in l][:3])
+                continue
+            d = first_diff(a, sorted(red_xml(root2)))
+            if d:
+                ck.failing_input('g-ir-generate --all describes another API than the typelib', dict(gir=open(gir).read()),
+                                 detail=dict(line=d[0], expected=d[1], generated=d[2]))
     finally:
         shutil.rmtree(tmp, ignore_errors=True)
     # the API against an independent reading of the bytes: the Coq decoder of Model/C06.v
